@@ -394,6 +394,11 @@ def case_list(tier: str):
     for f in ("int", "tuple"):
         out += [(f, s) for s in gen.plain_specs(N - 1)]
         out += [(f, s) for s in gen.explicit_id_specs(2)]
+    # trees reached by a history (all accessors evaluated, then one change) and larger trees
+    hs = gen.history_specs(gen.plain_specs(N - 1))
+    out += [("str", s) for s in hs] + [("rec_inplace", s) for s in hs]
+    nb = 6 if tier == "quick" else 40
+    out += [("str", s) for s in gen.big_specs(14, nb, lo=18, hi=40)] + [("rec_new", s) for s in gen.big_specs(15, nb, lo=18, hi=40)]
     return out
 
 
